@@ -23,3 +23,30 @@ def install(reg):
                  ensures={"color": "result.color == color_of(cat(value))"}, pure=True, props=("C02",))
     reg.contract(U + "get_emoji_for_measurement", params={"value": "int"}, returns="str",
                  ensures={"emoji": "result == emoji_of(cat(value))"}, pure=True, props=("C02",))
+
+
+def install2(reg):
+    reg.contract(U + "format_unit", params={"name": "str", "length": "int", "file": "Optional[str]"}, returns="ext:Text",
+                 ensures={"separator_colour": "out_arg(1, 0).style.color == color_of(cat(length))",
+                          "separator_is_text": "out_method(1) == 'append'"},
+                 props=("C02",))
+    reg.contract(U + "format_measurement", params={"path": "str", "measurement": "Measurement"}, returns="ext:Text",
+                 ensures={
+                     "n_parts": "out_len() == 12",
+                     "path": "out_arg(0, 0) == path",
+                     "line": "out_arg(2, 0) == str(measurement.start.line)",
+                     "column": "out_arg(4, 0) == str(measurement.start.column)",
+                     "value_text": "out_arg(7, 0) == str(measurement.value)",
+                     "value_colour": "out_kw(7, 'style').color == color_of(cat(measurement.value))",
+                     "emoji": "out_arg(9, 0) == emoji_of(cat(measurement.value))",
+                     "emoji_colour": "out_kw(9, 'style').color == color_of(cat(measurement.value))",
+                     "name": "out_arg(11, 0) == measurement.unit_name",
+                 }, props=("C02", "C18"))
+
+
+_install1 = install
+
+
+def install(reg):
+    _install1(reg)
+    install2(reg)
